@@ -6,7 +6,7 @@ git -C /repo worktree add -q --detach $WT HEAD || exit 2
 trap 'git -C /repo worktree remove --force '$WT EXIT INT TERM
 git -C $WT apply "$D/patch.diff" || { echo "patch does not apply"; exit 2; }
 for c in "$@"; do
-  out=$(DFOLS_REPO=$WT /verif/bin/check "$c" ${TIER:+--tier $TIER} 2>&1); rc=$?
+  out=$(DFOLS_REPO=$WT DFOLS_VERIF_OUT=${MUT_OUT:-/tmp/mut_out} /verif/bin/check "$c" ${TIER:+--tier $TIER} 2>&1); rc=$?
   echo "[$(basename $D) $c] rc=$rc  $(echo "$out" | grep '^VIOLATION' | sed 's/.*clause=\([^ ]*\).*/\1/' | sort | uniq -c | sort -rn | head -5 | awk '{printf "%s(x%s) ", $2, $1}')"
   [ $rc -ge 2 ] && echo "$out" | tail -5
 done
